@@ -346,4 +346,24 @@ theorem C05_py_kfold_map (source mask : Nat) (ops : List Nat) :
         some ((((mapSetEntry ops source).2.1 : Nat) : Int), (((mapSetEntry ops source).2.2 : Nat) : Int)) else none) :=
   GenPy.py_mmes_entry source mask ops
 
+/-- the reference-path Z matrix: the two loop nests of `_get_Z_matrix` *as they stand in /repo* (ranges, index and
+    value expressions translated on every run; `binom` = scipy's on non-negative integers, PyPrelude.pyBinom) assign
+    at every index they name the Model's `zEntry`, and an index they never name has `zEntry = 0` (`numpy.zeros`).
+    With `C05_zmatrix_closed` and `C05_address` the addresses computed from the *source* matrix are the lexical ranks. -/
+theorem C05_py_zmatrix (norb nele : Nat) (hn : nele ≤ norb) (r c : Nat) :
+    (∀ k ∈ GenPy.z1_rows (norb : Int) (nele : Int), ∀ ll ∈ GenPy.z1_cols (norb : Int) (nele : Int) k,
+        GenPy.z1_index (norb : Int) (nele : Int) k ll = ((r : Int), (c : Int)) →
+        GenPy.z1_value (norb : Int) (nele : Int) k ll = zEntry norb nele r c) ∧
+    (∀ ll ∈ GenPy.z2_cols (norb : Int) (nele : Int),
+        GenPy.z2_index (norb : Int) (nele : Int) (GenPy.z2_k norb nele) ll = ((r : Int), (c : Int)) →
+        GenPy.z2_value (norb : Int) (nele : Int) (GenPy.z2_k norb nele) ll = zEntry norb nele r c) ∧
+    ((∀ k ∈ GenPy.z1_rows (norb : Int) (nele : Int), ∀ ll ∈ GenPy.z1_cols (norb : Int) (nele : Int) k,
+        GenPy.z1_index (norb : Int) (nele : Int) k ll ≠ ((r : Int), (c : Int))) →
+     (∀ ll ∈ GenPy.z2_cols (norb : Int) (nele : Int),
+        GenPy.z2_index (norb : Int) (nele : Int) (GenPy.z2_k norb nele) ll ≠ ((r : Int), (c : Int))) →
+     zEntry norb nele r c = 0) :=
+  GenPy.py_z_matrix norb nele hn r c
+
+example : GenPy.z1_value 6 3 1 2 = zEntry 6 3 0 1 ∧ zEntry 6 3 0 1 = 6 ∧ (2 : Int) ∈ GenPy.z1_cols 6 3 1 := by decide +kernel
+
 end C05
